@@ -164,7 +164,9 @@ def mkkey(k):
     return [tuple(mkkey(x)) if isinstance(x, list) else x for x in k]
 
 
-PYENV = {"Fraction": fractions.Fraction, "Decimal": decimal.Decimal, "date": datetime.date,
+import http, signal
+import c15lits
+PYENV = {"HTTPStatus": http.HTTPStatus, "Signals": signal.Signals, "c15lits": c15lits, "Fraction": fractions.Fraction, "Decimal": decimal.Decimal, "date": datetime.date,
          "OrderedDict": collections.OrderedDict, "float": float, "frozenset": frozenset,
          "set": set, "range": range, "complex": complex, "bytes": bytes, "math": math}
 
